@@ -2,6 +2,7 @@
 mod catalogue;
 mod gen_enc;
 mod gen_geom;
+mod gen_plan;
 mod gen_rs;
 mod gen_sym;
 mod replay;
@@ -80,6 +81,17 @@ fn main() {
                 out.put(&gen_sym::op_case(i + 2, c));
             }
             out.flush();
+        }
+        ("gen", "plan") => {
+            let cases = gen_plan::cases(&tier, seed, &focus);
+            let mut out = Out::create(&out_path, start > 0);
+            for (i, c) in cases.iter().enumerate().skip(start) {
+                for r in gen_plan::run_case(i + 1, c, &focus) {
+                    out.put(&r);
+                }
+            }
+            out.flush();
+            eprintln!("plan: {} cases", cases.len());
         }
         ("gen", "rs") => {
             let cases = gen_rs::cases(&tier, seed, &focus);
